@@ -360,19 +360,40 @@ func (p *Persister) triggerFlush(ctx context.Context) {
 		writeDone:     make(chan struct{}),
 		callbacksDone: make(chan struct{}),
 	}
+	// The previous generation's store write has finished (see the wait above)
+	// but its callbacks may still be running. Waiters only ever look at the
+	// latest generation, so this one must not report its callbacks as done
+	// before the previous one did - otherwise WaitPendingWrites could return
+	// while an earlier flush's callback (e.g. a source's deferred plugin ack)
+	// has not run yet.
+	prev := p.flush
 	p.flush = st
-	go p.flushNow(ctx, batch, st)
+	go p.flushNow(ctx, batch, st, prev)
 }
 
 // flushNow will flush the state to the store.
-func (p *Persister) flushNow(ctx context.Context, batch map[string]persistData, st *flushState) {
+func (p *Persister) flushNow(ctx context.Context, batch map[string]persistData, st, prev *flushState) {
 	defer close(st.writeDone)
 	start := p.clock.Now()
+
+	// closeCallbacksDone reports this generation's callbacks (tracked by wg) as
+	// done once they and those of every earlier generation have returned.
+	closeCallbacksDone := func(wg *sync.WaitGroup) {
+		go func() {
+			wg.Wait()
+			if prev != nil {
+				<-prev.callbacksDone
+			}
+			close(st.callbacksDone)
+		}()
+	}
 
 	tx, ctx, err := p.db.NewTransaction(ctx, true)
 	if err != nil {
 		// TODO make sure error is propagated back to the runtime and Conduit shuts down
 		p.logger.Err(ctx, err).Msg("error creating new transaction")
+		// no callback is spawned on this path, do not leave waiters hanging
+		closeCallbacksDone(&sync.WaitGroup{})
 		return
 	}
 
@@ -408,10 +429,7 @@ func (p *Persister) flushNow(ctx context.Context, batch map[string]persistData, 
 			cb(err)
 		}(data.callback)
 	}
-	go func() {
-		cbWg.Wait()
-		close(st.callbacksDone)
-	}()
+	closeCallbacksDone(&cbWg)
 
 	p.logger.Debug(ctx).
 		Err(err).
